@@ -27,7 +27,8 @@ pub fn run_case(c: &Value) -> Value {
     }
     let dir: &'static str = Box::leak(pubdir.to_str().unwrap().to_string().into_boxed_str());
     let mount: &'static str = Box::leak(c["mount"].as_str().unwrap().to_string().into_boxed_str());
-    let omit: Vec<&'static str> = c["omit"].as_array().unwrap().iter().map(|s| &*Box::leak(s.as_str().unwrap().to_string().into_boxed_str())).collect();
+    let dots = c["omit_dots"].as_bool() == Some(true);
+    let omit: Vec<&'static str> = c["omit"].as_array().unwrap().iter().map(|s| &*Box::leak(format!("{}{}", if dots { "." } else { "" }, s.as_str().unwrap()).into_boxed_str())).collect();
     let built = std::panic::catch_unwind(std::panic::AssertUnwindSafe(|| {
         let d = mount.Dir(dir);
         let d = match omit.len() { 0 => d, 1 => d.omit_extensions([omit[0]]), 2 => d.omit_extensions([omit[0], omit[1]]), 3 => d.omit_extensions([omit[0], omit[1], omit[2]]), n => panic!("harness: {n} omit") };
